@@ -180,8 +180,11 @@ def run_trn(sc, s, res, data):
                 got = data.read_trn(path, warn=False, processes=procs, chunk_size=chunk)
                 with open(path) as f:
                     got_f = data.read_trn(f, warn=False, processes=procs, chunk_size=chunk)
-            except HarnessError:
-                raise
+            except HarnessError as e:
+                if "event budget" not in str(e):
+                    raise
+                res.violate("liveness.pool", f"read_trn(processes={procs}, chunk_size={chunk}) did not terminate within {sim.event_budget} pool events")
+                return
             except Exception as e:  # noqa
                 res.violate("workers.raised", f"read_trn(processes={procs}, chunk_size={chunk}) raised {type(e).__name__}: {e}")
                 return
